@@ -31,7 +31,7 @@ UNQUALIFIED = {"WrapFns.lean": "Sequence", "TokFns.lean": "MultiTrackLargeVocabu
 TIE = {"WrapFns.lean": "Props/WrapTie.lean", "ViewFns.lean": "Props/ViewTie.lean", "ElemFns.lean": "Props/ElemTie.lean",
        "RelFns2.lean": "Props/RelTie2.lean", "StaticFns.lean": "Props/StaticTie.lean", "TokFns.lean": "Props/TokTie.lean",
        "AbsFns2.lean": "Props/AbsTie2.lean", "UtilFns.lean": "Props/UtilTie.lean", "TheoryFns.lean": "Props/C20.lean", "SortFns.lean": "Props/SortTie.lean", "HeapFns.lean": "Props/HeapTie.lean",
-       "HeapFns2.lean": "Props/HeapTie2.lean"}
+       "HeapFns2.lean": "Props/HeapTie2.lean", "HeapFns3.lean": "Props/HeapTie3.lean"}
 
 # hand-maintained classification of what is NOT translated (qualified name -> (class, note))
 HAND = {
